@@ -49,6 +49,10 @@ pub struct BuildCase {
     /// true: the inputs are valid and the stub's build error must come back unchanged;
     /// false: the inputs are invalid and the stub's build must not be invoked
     pub valid: bool,
+    /// the statement does not decide whether these inputs are valid (an axis of one point is
+    /// vacuously increasing): only the invariants inside the stub's build are checked, if it runs
+    #[serde(default)]
+    pub either: bool,
 }
 
 #[derive(Serialize, Deserialize, Default, Debug)]
@@ -210,7 +214,7 @@ pub fn build_cases(base: &SlotCfg, r: &mut Rng) -> Vec<BuildCase> {
     for variant in 0..4u8 {
         let mut c = cfg.clone();
         c.build_plan = BuildPlan::Fail { variant, token: format!("build-tok-{:08x}", r.next_u64() as u32) };
-        out.push(BuildCase { label: format!("valid inputs, strategy build fails with variant {variant}"), cfg: c, valid: true });
+        out.push(BuildCase { label: format!("valid inputs, strategy build fails with variant {variant}"), cfg: c, valid: true, either: false });
     }
     // also through the default axes
     {
@@ -219,7 +223,7 @@ pub fn build_cases(base: &SlotCfg, r: &mut Rng) -> Vec<BuildCase> {
         c.y = None;
         c.build_plan = BuildPlan::Fail { variant: (r.below(4)) as u8, token: format!("build-tok-{:08x}", r.next_u64() as u32) };
         if c.storage == Storage::Owned || c.storage == Storage::DataView {
-            out.push(BuildCase { label: "valid inputs (default axes), strategy build fails".into(), cfg: c, valid: true });
+            out.push(BuildCase { label: "valid inputs (default axes), strategy build fails".into(), cfg: c, valid: true, either: false });
         }
     }
     let axes: Vec<bool> = if cfg.kind.is_2d() { vec![false, true] } else { vec![false] };
@@ -239,19 +243,19 @@ pub fn build_cases(base: &SlotCfg, r: &mut Rng) -> Vec<BuildCase> {
             let mut a = get(&c);
             a[p + 1] = a[p];
             set(&mut c, a);
-            out.push(BuildCase { label: format!("{name} axis: tie at {p}"), cfg: c, valid: false });
+            out.push(BuildCase { label: format!("{name} axis: tie at {p}"), cfg: c, valid: false, either: false });
             let mut c = cfg.clone();
             let mut a = get(&c);
             a.swap(p, p + 1);
             set(&mut c, a);
-            out.push(BuildCase { label: format!("{name} axis: swapped pair at {p}"), cfg: c, valid: false });
+            out.push(BuildCase { label: format!("{name} axis: swapped pair at {p}"), cfg: c, valid: false, either: false });
         }
         for p in 0..n {
             let mut c = cfg.clone();
             let mut a = get(&c);
             a[p] = Fb(f64::NAN);
             set(&mut c, a);
-            out.push(BuildCase { label: format!("{name} axis: NaN at {p}"), cfg: c, valid: false });
+            out.push(BuildCase { label: format!("{name} axis: NaN at {p}"), cfg: c, valid: false, either: false });
         }
         {
             let mut c = cfg.clone();
@@ -259,17 +263,17 @@ pub fn build_cases(base: &SlotCfg, r: &mut Rng) -> Vec<BuildCase> {
             let last = a[n - 1].0;
             a.push(Fb(last + 1.0));
             set(&mut c, a);
-            out.push(BuildCase { label: format!("{name} axis: one element too long"), cfg: c, valid: false });
+            out.push(BuildCase { label: format!("{name} axis: one element too long"), cfg: c, valid: false, either: false });
             let mut c = cfg.clone();
             let mut a = get(&c);
             a.pop();
             set(&mut c, a);
-            out.push(BuildCase { label: format!("{name} axis: one element too short"), cfg: c, valid: false });
+            out.push(BuildCase { label: format!("{name} axis: one element too short"), cfg: c, valid: false, either: false });
             let mut c = cfg.clone();
             let mut a = get(&c);
             a.reverse();
             set(&mut c, a);
-            out.push(BuildCase { label: format!("{name} axis: strictly decreasing"), cfg: c, valid: false });
+            out.push(BuildCase { label: format!("{name} axis: strictly decreasing"), cfg: c, valid: false, either: false });
         }
         // fewer points than the declared minimum, everything else consistent
         if cfg.probe_min >= 1 {
@@ -293,7 +297,7 @@ pub fn build_cases(base: &SlotCfg, r: &mut Rng) -> Vec<BuildCase> {
                 }
             }
             c.data = data;
-            out.push(BuildCase { label: format!("{name} axis: {keep} points, declared minimum {}", cfg.probe_min), cfg: c, valid: false });
+            out.push(BuildCase { label: format!("{name} axis: {keep} points, declared minimum {}", cfg.probe_min), cfg: c, valid: false, either: false });
         }
     }
     // simultaneous violations: the damaged x axis of one row with the damaged y axis (2-D) or the
@@ -310,7 +314,7 @@ pub fn build_cases(base: &SlotCfg, r: &mut Rng) -> Vec<BuildCase> {
             let (a, b) = (*r.pick(&xs), *r.pick(&ys));
             let mut c = a.cfg.clone();
             c.y = b.cfg.y.clone();
-            out.push(BuildCase { label: format!("{} + {}", a.label, b.label), cfg: c, valid: false });
+            out.push(BuildCase { label: format!("{} + {}", a.label, b.label), cfg: c, valid: false, either: false });
         } else if !xs.is_empty() && !mins.is_empty() {
             let (a, b) = (*r.pick(&xs), *r.pick(&mins));
             // truncated data of b, damaged x axis of a (the other axis as in b)
@@ -322,7 +326,20 @@ pub fn build_cases(base: &SlotCfg, r: &mut Rng) -> Vec<BuildCase> {
                 // keep the x damage but not the length fix-up of b
                 c.x = a.cfg.x.clone();
             }
-            out.push(BuildCase { label: format!("{} + {}", a.label, b.label), cfg: c, valid: false });
+            out.push(BuildCase { label: format!("{} + {}", a.label, b.label), cfg: c, valid: false, either: false });
+        }
+    }
+    // very short data: 0 and 1 points along the first axis (interesting for declared minimum 0/1)
+    for keep in [0usize, 1] {
+        if cfg.shape[0] > keep {
+            let mut c = cfg.clone();
+            let old = c.shape.clone();
+            let inner: usize = old[1..].iter().product();
+            c.shape[0] = keep;
+            c.data.truncate(keep * inner);
+            c.x = Some(c.x.clone().unwrap().into_iter().take(keep).collect());
+            let below_min = keep < cfg.probe_min;
+            out.push(BuildCase { label: format!("short: {keep} point(s) along x, declared minimum {}", cfg.probe_min), cfg: c, valid: false, either: !below_min });
         }
     }
     if cfg.dimty == DimTy::IxDyn {
@@ -331,7 +348,7 @@ pub fn build_cases(base: &SlotCfg, r: &mut Rng) -> Vec<BuildCase> {
         c.shape = if cfg.kind.is_2d() { vec![c.shape[0]] } else { vec![] };
         let n: usize = c.shape.iter().product(); // product of no dimensions = 1 element
         c.data.truncate(n);
-        out.push(BuildCase { label: "dynamic data with too few dimensions".into(), cfg: c, valid: false });
+        out.push(BuildCase { label: "dynamic data with too few dimensions".into(), cfg: c, valid: false, either: false });
     }
     out
 }
@@ -375,7 +392,7 @@ pub fn check_build_case(case: &BuildCase) -> Option<(String, String)> {
             Err(BuildFail::Unsupported(_)) => None,
         }
     } else {
-        if log.calls > 0 {
+        if log.calls > 0 && !case.either {
             return Some(("build-invoked-on-invalid-input".into(), format!("{}: the strategy's build was invoked", case.label)));
         }
         None
